@@ -43,6 +43,7 @@ def plan_C08(res, binary, hooked, tier, seed):
 
 def plan_C09(res, binary, hooked, tier, seed):
     lzma_layer(res, binary, hooked, tier, seed, "C09", [])
+    lzma2_layer(res, binary, hooked, tier, seed, "C09", 0)
     return ("behaviours of MC_LzmaDecoder whose last symbol is an out-of-window copy (distance > produced, > dictionary, huge; also via matched literal), at every position relative to the wrap; "
             "distinct = distinct (bytes, dict)"), TRUSTED_LZMA
 
@@ -161,4 +162,23 @@ def plan_C18(res, binary, hooked, tier, seed):
     xz_layer(res, binary, hooked, tier, seed, "C18", [], tq(tier, 60000, 3000000))
     return ("files of the bounded model using an unsupported feature: check ids outside {None, CRC32, CRC64}, other filter ids, two filters, reserved bits in stream/block flags, trailing bytes / stream padding; distinct = distinct file bytes"), TRUSTED_XZ
 
-PLANS = {"C01": plan_C01, "C05": plan_C05, "C08": plan_C08, "C09": plan_C09, "C10": plan_C10, "C15": plan_C15, "C16": plan_C16, "C03": plan_C03, "C06": plan_C06, "C18": plan_C18}
+TRUSTED_L2 = TRUSTED_LZMA + ["harness LZMA2 serialiser and byte-level reference LZMA2 decoder (format rules of Lzma2.tla evaluated on bytes); TLC's predicted verdict/output, the reference decoder and lzma-rs must agree on every replayed behaviour"]
+
+def lzma2_layer(res, binary, hooked, tier, seed, prop, walks):
+    mc = run_tlc("MC_Lzma2", tq(tier, "MC_Lzma2_quick.cfg", "MC_Lzma2_thorough.cfg"), "%s_l2" % prop, workers=tq(tier, 12, 14), timeout=tq(tier, 900, 10800))
+    vac = vacuous_actions(mc, ignore=("Next",))
+    if vac:
+        raise ToolError("vacuous model: actions never taken: %s" % vac)
+    res.add_tlc(mc, "chunk layer vs declarative chunk semantics: Refines, Verdict, SinkPrefix, FramingRejected over all chunk sequences of the bounded model (every reset class after every chunk kind, matches into earlier chunks, one framing fault)")
+    rep = run_harness(binary, ["lzma2", "--property", prop, "--seed", seed, "--export", mc["out"], "--limit", tq(tier, 60000, 3000000), "--walks", walks], "%s_l2" % prop)
+    res.add_harness(rep, "every exported chunk sequence selected for %s serialised by the spec-driven LZMA2 encoder -> lzma2_decompress / raw Lzma2Decoder / one-block .xz" % prop)
+
+def plan_C02(res, binary, hooked, tier, seed):
+    lzma2_layer(res, binary, hooked, tier, seed, "C02", tq(tier, 60, 2500))
+    return ("all well-formed chunk sequences of the bounded model + seeded long chunk sequences (1..6 chunks, programs up to 6000 symbols, 1-byte and 64 KiB uncompressed chunks, property changes keeping and changing lc+lp, every reset class); distinct = distinct (stream bytes, api)"), TRUSTED_L2
+
+def plan_C17(res, binary, hooked, tier, seed):
+    lzma2_layer(res, binary, hooked, tier, seed, "C17", 0)
+    return ("all chunk sequences of the bounded model ending in one framing fault: control 0x03/0x7F, props >= 225, lc+lp > 4, declared packed size too small / too large, declared unpacked size larger / smaller (cut inside a match / between symbols), short uncompressed chunk, missing end byte; distinct = distinct (stream bytes, api)"), TRUSTED_L2
+
+PLANS = {"C01": plan_C01, "C05": plan_C05, "C08": plan_C08, "C09": plan_C09, "C10": plan_C10, "C15": plan_C15, "C16": plan_C16, "C03": plan_C03, "C06": plan_C06, "C18": plan_C18, "C02": plan_C02, "C17": plan_C17}
